@@ -269,7 +269,7 @@ func factsSender() {
 	// package-wide: no other statement writes writingFrame / writingFrame.Seq
 	sites := 0
 	for _, fn := range pkgs[mx].funcs {
-		for _, e := range events(fn) {
+		for _, e := range rawEvents(fn) {
 			switch e.kind {
 			case "incdec":
 				if regexp.MustCompile(`writingFrame(\.Seq)?(\+\+|--)$`).MatchString(e.text) {
